@@ -2,7 +2,7 @@
 From Coq Require Import String List NArith Bool Lia.
 From GQL Require Import Base.Bytes Syntax.Lexer Syntax.Ast Syntax.Parser Syntax.Grammar Syntax.Printer
   Proofs.SyntaxSound Proofs.SyntaxComplete Proofs.SyntaxPrinter Proofs.SyntaxUtf8 Proofs.SyntaxRender Proofs.SyntaxLayoutWf
-  Proofs.SyntaxLexemes Proofs.SyntaxRoundTrip.
+  Proofs.SyntaxLexemes Proofs.SyntaxRoundTrip Proofs.SyntaxCompleteSDL Proofs.SyntaxBlock Proofs.SyntaxRoundTripSDL.
 Import ListNotations.
 Open Scope N_scope.
 
@@ -63,4 +63,16 @@ Proof.
   destruct C as [C _]. cbn [snd] in C. rewrite C in W. apply toks_wf_app in W. destruct W as [W _].
   destruct (value_roundtrip c p v D W) as (ts' & v' & H1 & _ & H3 & _ & H5).
   exists ts', v'. split; [exact H1|split; [exact H3|exact H5]].
+Qed.
+
+(* every document, executable or type-system: print, lex, parse gives the document back up to
+   locations and empty descriptions, and it prints to the same text *)
+Theorem roundtrip_src : forall src d mb, parse src = Ok (d, mb) -> src_strings_utf8 src = true ->
+  exists d', parse (print_doc d) = Ok (d', false) /\ erase_loc_descr d' = erase_loc_descr d /\ print_doc d' = print_doc d.
+Proof.
+  intros src d mb H A. unfold parse in H. unfold src_strings_utf8 in A.
+  destruct (lex src) as [[ts m]| |] eqn:L; try discriminate.
+  destruct (parse_tokens ts) as [d0| |] eqn:P; try discriminate. inversion H; subst d0 m.
+  apply (roundtrip_tokens ts d P). apply toks_wf_of; [|exact A].
+  unfold lex, lex_src in L. cbn [snd] in L. apply (lex_all_lexemes _ _ _ _ _ L).
 Qed.
